@@ -104,12 +104,15 @@ def binary_part(chk, tbin, scratch, n):
             outs = []
             for env in layouts(rng, 3, os.path.join(scratch, 'bt%d' % k)):
                 e = dict(os.environ); e.update(env)
-                p = subprocess.run([tbin, '-t' + typ, '-i', f], capture_output=True, env=e, timeout=120)
+                of = os.path.join(scratch, 'bin%d.out' % k)
+                if os.path.exists(of): os.remove(of)
+                p = subprocess.run([tbin, '-t' + typ, '-i', f, '-o', of], capture_output=True, env=e, timeout=120)
                 if p.returncode != 0 and 'MALLOC_MMAP_THRESHOLD_' in env:
                     # one mapping per allocation can exhaust vm.max_map_count: the layout is not viable for this document, nothing to compare
                     chk.add('mmap_layout_not_viable', 1); continue
                 # the tool starts its HTTP server on a fixed port and logs whether that worked: depends on what else runs on the machine, not on the input
-                outs.append(b'\n'.join(l for l in p.stdout.split(b'\n') if not (l.startswith(b'[') and b'HTTP server' in l)))
+                # (and its WebSocket server). The emitted text is taken from the output file (-o, same path every time), the log lines on stdout are not compared
+                outs.append(open(of, 'rb').read() if os.path.exists(of) else b'<no output file> rc=%d' % p.returncode)
             cnt += len(outs); chk.count(len(outs))
             if len(set(outs)) != 1:
                 a, b2 = outs[0], [o for o in outs if o != outs[0]][0]
